@@ -28,7 +28,8 @@ RULE = ("case = (requests before / at / after a closing message of one of 7 kind
         "worker was active, and the schedule has >= 1 pre-emption; distinct by case hash")
 ASSUMPTIONS = ["one thread at a time (GIL); pre-emption at sync points (and source lines in line mode)",
                "the close decision instant is the first assignment of close_when_flushed / will_close on the connection's channel"]
-KINDS = ["conn_close", "http10", "bad_framing", "oversize", "app_no_length_10", "app_short", "app_exc", "none"]
+KINDS = ["conn_close", "http10", "bad_framing", "oversize", "app_no_length_10", "app_short", "app_exc", "app_exc_mid", "none"]
+EXCS = ["ValueError", "OSError", "ConnectionResetError", "FileNotFoundError", "SystemExit"]
 
 
 def req_bytes(i, kind=None):
@@ -49,13 +50,16 @@ def req_bytes(i, kind=None):
 OK_BEH = {"status": "200 OK", "mode": "list", "chunks": ["ok"], "declared_cl": 2}
 
 
-def beh_for(kind):
+def beh_for(kind, exc="ValueError"):
+    if kind == "app_exc_mid":
+        # fails after the head and part of a Content-Length body went out: the response cannot be delimited as announced
+        return {"status": "200 OK", "mode": "gen", "chunks": ["ab", "cd"], "declared_cl": 4, "raise_at": ["iter", 1], "exc": exc}
     if kind == "app_no_length_10":
         return {"status": "200 OK", "mode": "gen", "chunks": ["a", "b"]}
     if kind == "app_short":
         return {"status": "200 OK", "mode": "list", "chunks": ["ab"], "declared_cl": 5}
     if kind == "app_exc":
-        return {"status": "200 OK", "mode": "list", "chunks": ["x"], "declared_cl": 1, "raise_at": ["call"], "exc": "ValueError"}
+        return {"status": "200 OK", "mode": "list", "chunks": ["x"], "declared_cl": 1, "raise_at": ["call"], "exc": exc}
     return dict(OK_BEH)
 
 
@@ -67,7 +71,7 @@ def to_scenario(case):
     pieces.append(req_bytes(k, kind))
     calls_app_at_k = kind not in ("bad_framing", "oversize")
     if calls_app_at_k:
-        behs.append(beh_for(kind))
+        behs.append(beh_for(kind, case.get("exc", "ValueError")))
     tail = []
     for j, a in enumerate(after):
         if a == "req":
@@ -90,6 +94,8 @@ def to_scenario(case):
     adj = {"threads": case.get("workers", 1), "channel_request_lookahead": case.get("lookahead", 0)}
     if kind == "oversize":
         adj["max_request_header_size"] = 400
+    if "lse" in case:
+        adj["log_socket_errors"] = bool(case["lse"])
     sc = {"adj": adj, "gran": case.get("gran", "sync"), "apps": behs, "sndbuf": case.get("sndbuf", 1 << 20),
           "conns": [{"segments": [x for x in segs if x], "capacity": case.get("capacity"), "drain": case.get("drain", "all")}]}
     expected = ["/k%d" % i for i in range(n_before)] + (["/k%d" % k] if calls_app_at_k else [])
@@ -112,6 +118,8 @@ def validate(case):
         raise C.CaseInvalid("arrival")
     if case.get("workers", 1) not in (1, 2, 3) or case.get("gran", "sync") not in ("sync", "line"):
         raise C.CaseInvalid("workers")
+    if case.get("exc", "ValueError") not in EXCS:
+        raise C.CaseInvalid("exc")
     if case.get("capacity") is not None and (not isinstance(case["capacity"], int) or case["capacity"] < 1):
         raise C.CaseInvalid("capacity")
 
@@ -170,7 +178,8 @@ def run_case(case):
 
 def case_strategy():
     return st.fixed_dictionaries({
-        "before": st.integers(0, 2), "kind": st.sampled_from(KINDS[:-1] + ["conn_close", "app_exc"]),
+        "before": st.integers(0, 2), "kind": st.sampled_from(KINDS[:-1] + ["conn_close", "app_exc", "app_exc_mid"]),
+        "exc": st.sampled_from(EXCS), "lse": st.booleans(),
         "after": st.lists(st.sampled_from(["req", "req", "partial", "garbage"]), min_size=1, max_size=3),
         "arrival": st.sampled_from(["same", "later", "later", "split"]), "lookahead": st.sampled_from([0, 1, 1, 2, 5]),
         "workers": st.sampled_from([1, 1, 2]), "capacity": st.sampled_from([None, None, 10, 60]), "drain": st.sampled_from(["all", 8]),
@@ -187,6 +196,10 @@ FIXED = [
     {"before": 1, "kind": "conn_close", "after": ["partial", "req"], "arrival": "later", "lookahead": 5, "workers": 2},
     {"before": 0, "kind": "app_no_length_10", "after": ["req"], "arrival": "split", "lookahead": 1, "workers": 1},
     {"before": 0, "kind": "oversize", "after": ["req"], "arrival": "same", "lookahead": 2, "workers": 1},
+    {"before": 0, "kind": "app_exc_mid", "exc": "ValueError", "after": ["req"], "arrival": "same", "lookahead": 1, "workers": 1},
+    {"before": 0, "kind": "app_exc_mid", "exc": "ConnectionResetError", "lse": False, "after": ["req", "req"], "arrival": "same", "lookahead": 1, "workers": 1},
+    {"before": 1, "kind": "app_exc_mid", "exc": "FileNotFoundError", "lse": False, "after": ["req"], "arrival": "later", "lookahead": 0, "workers": 2},
+    {"before": 0, "kind": "app_exc", "exc": "OSError", "lse": False, "after": ["req"], "arrival": "same", "lookahead": 2, "workers": 1},
 ]
 
 
